@@ -8,7 +8,10 @@ with tempfile.TemporaryDirectory(prefix="verif_baseline_") as td:
     out = os.path.join(td, "junit.xml")
     cmd = ["/venv/bin/python", "-m", "pytest", "-ra", "-q", "-p", "no:cacheprovider", "--timeout=900",
            "--continue-on-collection-errors", "--junitxml=" + out] + sys.argv[1:]
-    subprocess.run(cmd, cwd="/repo", env=env, stdout=subprocess.DEVNULL, stderr=subprocess.DEVNULL)
+    tree = os.environ.get("VERIF_SUITE_DIR", "/repo")        # a scratch worktree with a seeded change (tools/confirm_seeded_suite.sh)
+    if tree != "/repo":
+        env["PYTHONPATH"] = tree
+    subprocess.run(cmd, cwd=tree, env=env, stdout=subprocess.DEVNULL, stderr=subprocess.DEVNULL)
     passed = set()
     for tc in ET.parse(out).getroot().iter("testcase"):
         if not any(ch.tag in ("failure", "error", "skipped") for ch in tc):
